@@ -64,10 +64,14 @@ def has_of_with_sized_of_element(text):
 
 
 def param_nested(text):
-    """a parameterised type P instantiated with an actual parameter that is itself defined as an instance of P"""
+    """a parameterised type P instantiated with an actual parameter that is itself an instance of P: defined as one by name,
+    or written in place, P { P {...} } (reachable since an instantiation used as an actual parameter keeps its own parameters,
+    notes/fixes/J/05: both specializations then live in P.h, the outer one first)"""
     t = strip_comments(text)
     params = re.findall(r"(?m)^\s*([A-Z][\w-]*)\s*\{[^}]*\}\s*::=", t)
     for p in params:
+        if re.search(r"\b%s\s*\{\s*%s\s*\{" % (re.escape(p), re.escape(p)), t):
+            return True
         inst = set(re.findall(r"(?m)^\s*([A-Z][\w-]*)\s*::=\s*%s\s*\{" % re.escape(p), t))
         for a in re.findall(r"\b%s\s*\{\s*([A-Z][\w-]*)\s*\}" % re.escape(p), t):
             if a in inst:
